@@ -44,8 +44,8 @@ ENGINE = "core+E1-explore"
 TECHNIQUE = "runtime monitoring: 3-state firing/cancellation model per Deferred over a 2/3-level waiting chain, compared after every action"
 RULE = ("all histories of length L (every shorter one is a prefix and is checked step by step): "
         "two-level chain (7 actions: cb/eb/cancel on d0 and d1, wait0 once) x 13 canceller configurations "
-        "at L=5 and x 3 configurations (outer none|nothing|fires callback, inner without canceller) at L=6 quick / x 13 at "
-        "L=6 and x 3 at L=7 thorough; three-level chain (11 actions: cb/eb/cancel on d0,d1,d2, wait0 and "
+        "at L=5 and x 2 configurations (outer none|nothing, inner without canceller) at L=6 quick / x 13 at "
+        "L=6 and x 2 at L=7 thorough; three-level chain (11 actions: cb/eb/cancel on d0,d1,d2, wait0 and "
         "wait1 once each) x 4 configurations at L=5 quick / L=6 thorough; all enumerated directly, "
         "unpruned; three-level chain x 8 configurations with re-entrant cancellers (canceller fires the "
         "next / previous Deferred of the chain, cancels the next one, or fires its own and then raises) at "
@@ -70,7 +70,7 @@ READY = True
 
 KINDS = ("none", "cb", "eb", "nothing", "raises")
 CONFIGS2 = ([(o, i) for o in KINDS for i in ("none", "nothing")] + [("none", i) for i in ("cb", "eb", "raises")])
-CONFIGS2_LONG = [(o, "none") for o in ("none", "nothing", "cb")]
+CONFIGS2_LONG = [(o, "none") for o in ("none", "nothing")]
 CONFIGS3 = [("none", "none", "none"), ("none", "none", "nothing"), ("nothing", "nothing", "cb"), ("raises", "eb", "none")]
 # re-entrant cancellers: "firedown"/"fireup" fire the next / previous Deferred of the chain from inside the
 # canceller (AlreadyCalledError caught and logged there), "cancelnext" cancels the next one, "cbraise" fires its
@@ -85,12 +85,32 @@ NORES = "NORESULT"
 CANCELLED = "Cancelled"
 
 
-def actions_for(n):
+EXT = "+ext"   # first element of a configuration: histories also pause/unpause and use chainDeferred
+MAXPAUSE = 2
+CONFIGS2_EXT = [(EXT, "none", "none"), (EXT, "nothing", "none"), (EXT, "none", "nothing"), (EXT, "cb", "raises")]
+LITE = "+lite"  # the same without errback actions, one outstanding pause, no pausing of the last Deferred
+CONFIGS3_EXT = [(LITE, "none", "none", "none"), (LITE, "none", "nothing", "nothing")]
+
+
+def split(cfg):
+    """(extended alphabet: False | EXT | LITE, canceller kinds per level)"""
+    return (cfg[0], tuple(cfg[1:])) if cfg[0] in (EXT, LITE) else (False, tuple(cfg))
+
+
+def maxpause(ext):
+    return 1 if ext == LITE else MAXPAUSE
+
+
+def actions_for(n, ext=False):
     out = []
     for k in range(n):
-        out += ["cb%d" % k, "eb%d" % k, "cancel%d" % k]
+        out += ["cb%d" % k, "cancel%d" % k] if ext == LITE else ["cb%d" % k, "eb%d" % k, "cancel%d" % k]
+        if ext == EXT or (ext == LITE and k + 1 < n):
+            out += ["pause%d" % k, "unpause%d" % k]
         if k + 1 < n:
             out.append("wait%d" % k)
+            if ext:
+                out.append("chn%d" % k)   # d_{k+1}.chainDeferred(d_k); excludes wait_k and vice versa
     return tuple(out)
 
 
@@ -148,9 +168,11 @@ class World:
     def __init__(self, ctx, cfg):
         tw = _tw()
         self.ctx = ctx
+        self.fullcfg = cfg
+        self.ext, cfg = split(cfg)
         self.cfg = cfg
         self.n = n = len(cfg)
-        self.acts = actions_for(n)
+        self.acts = actions_for(n, self.ext)
         self.tw = tw
         self.step = 0
         self.hist = []
@@ -165,7 +187,8 @@ class World:
         self.res = [NORES] * n
         self.queue = [["rec"] for _ in range(n)]   # "rec" | "wait" | "after" | ("cont", waiter)
         self.waiting = [False] * n                 # d_k waits on d_{k+1}
-        self.waitused = [False] * n
+        self.waitused = [False] * n                # wait_k or chn_k used
+        self.upaused = [0] * n                     # pauses made by the history
         self.exp = []
         self.fwd = 0
 
@@ -179,7 +202,9 @@ class World:
         if isinstance(x, tw["F"]):
             if x.check(tw["CE"]):
                 return CANCELLED
-            return ("F", x.value.k) if type(x.value) is _E else ("F?", repr(x.value)[:60])
+            if type(x.value) is _E:
+                return ("F", x.value.k)
+            return ("F", "ACE") if x.check(tw["ACE"]) else ("F?", repr(x.value)[:60])
         if isinstance(x, tw["D"]):
             return ("D",)
         return NORES if x is NORES else ("?", repr(x)[:60])
@@ -225,6 +250,12 @@ class World:
             d.errback(_E(tag))
         elif verb == "cancel":
             d.cancel()
+        elif verb == "pause":
+            d.pause()
+        elif verb == "unpause":
+            d.unpause()
+        elif verb == "chn":
+            self.ds[k + 1].chainDeferred(d)
         else:
             nxt = self.ds[k + 1]
             d.addBoth(lambda _: nxt)
@@ -233,22 +264,27 @@ class World:
     # ---- model side --------------------------------------------------------------------------
     def _run(self, k):
         q = self.queue[k]
-        while q and not self.waiting[k] and self.ms[k] != "U":
+        while q and not self.waiting[k] and not self.upaused[k] and self.ms[k] != "U":
             it = q.pop(0)
             if it == "rec" or it == "after":
                 self.exp.append((it, k, self.res[k]))
             elif it == "wait":
                 j = k + 1
-                if self.ms[j] != "U" and not self.waiting[j]:
+                if self.ms[j] != "U" and not self.waiting[j] and not self.upaused[j]:
                     self.res[k], self.res[j] = self.res[j], None
                 else:
                     self.waiting[k] = True
                     self.res[k] = ("D",)
                     self.queue[j].append(("cont", k))
+            elif it[0] == "chain":
+                # chainDeferred pair (d_o.callback, d_o.errback): returns None, or raises AlreadyCalledError
+                _bump("chaindeferred_pairs_run")
+                r = self._fire(it[1], self.res[k])
+                self.res[k] = ("F", "ACE") if r else None
             else:
                 o = it[1]
                 self.res[o], self.res[k] = self.res[k], None
-                self.waiting[o] = False
+                self.waiting[o] = False   # d_o has its result: from here on it waits on nothing
                 self._run(o)
 
     def _deliver(self, k, r):
@@ -275,6 +311,8 @@ class World:
                 self.fwd += 1
                 return self._cancel(k + 1, boomed)
             _bump("cancel_no_effect")
+            if self.upaused[k]:
+                _bump("cancel_no_effect_fired_paused")
             return False
         kind = self.cfg[k]
         tag = "c%d.%d" % (k, self.step)
@@ -324,6 +362,18 @@ class World:
             self.queue[k] += ["wait", "after"]
             self._run(k)
             return None, False
+        if verb == "chn":
+            self.waitused[k] = True
+            self.queue[k + 1].append(("chain", k))
+            self._run(k + 1)
+            return None, False
+        if verb == "pause":
+            self.upaused[k] += 1
+            return None, False
+        if verb == "unpause":
+            self.upaused[k] -= 1
+            self._run(k)
+            return None, False
         self.fwd = 0
         boom_ok = self._cancel(k, boomed)
         if self.fwd == 1:
@@ -338,7 +388,17 @@ class World:
     def actions(self):
         if self.bad:
             return []
-        return [a for a in self.acts if a[0] != "w" or not self.waitused[int(a[-1])]]
+        out = []
+        for a in self.acts:
+            c, k = a[0], int(a[-1])
+            if (c == "w" or a[1] == "h") and self.waitused[k]:
+                continue
+            if c == "p" and self.upaused[k] >= maxpause(self.ext):
+                continue
+            if c == "u" and not self.upaused[k]:
+                continue
+            out.append(a)
+        return out
 
     def apply(self, a):
         self.step += 1
@@ -362,7 +422,7 @@ class World:
         if ok_exc and self.log == self.exp and real_state == model_state:
             return
         self.bad = True
-        w = {"config": list(self.cfg), "history": list(self.hist),
+        w = {"config": list(self.fullcfg), "history": list(self.hist), "model_user_pauses": list(self.upaused),
              "failing_action": a, "expected_exception": want_exc, "raised": exc,
              "expected_events": self.exp, "observed_events": self.log,
              "expected_called_result": model_state, "observed_called_result": real_state,
@@ -383,6 +443,9 @@ class World:
                                                             "waits on an outstanding one had no effect")
             elif n_exp != n_got:
                 key, what = "canceller-call-count", "canceller not called exactly once for cancel() on an unfired Deferred (or called on a fired one)"
+            elif verb == "cancel" and not self.exp and self.fwd == 0:
+                key, what = "cancel-of-fired-not-waiting-had-effect", ("cancel() on a fired Deferred that is not waiting on another "
+                                                                       "Deferred must have no effect")
             elif verb == "cancel":
                 key, what = "cancel-effect-mismatch", "the effect of cancel() differs from the cancellation protocol"
             else:
@@ -396,7 +459,9 @@ class World:
         out = [self.bad]
         for i, x in enumerate(self.ds):
             r = self.rr(getattr(x, "result", NORES))
-            out.append((self.ms[i], self.waiting[i], self.waitused[i], kind(self.res[i]),
+            ct = getattr(x, "_chainedTo", None)
+            out.append((self.ms[i], self.waiting[i], self.waitused[i], self.upaused[i], kind(self.res[i]),
+                        next((j for j, y in enumerate(self.ds) if y is ct), None),
                         tuple(q if isinstance(q, str) else q[0] for q in self.queue[i]),
                         x.called, x._suppressAlreadyCalled, x.paused, kind(r), len(x.callbacks), x._canceller is not None))
         return tuple(out)
@@ -406,27 +471,42 @@ def _swallow(f):
     return None
 
 
-def histories(n, length):
-    """All action lists of exactly `length` over the n-level alphabet, each wait_k at most once."""
-    acts = actions_for(n)
+def histories(n, length, ext=False):
+    """All action lists of exactly `length`: wait_k / chn_k at most once per k (and not both), at most
+    MAXPAUSE outstanding pauses per Deferred, unpause only with an outstanding pause."""
+    acts = actions_for(n, ext)
     h = []
-    used = set()
+    used = [False] * n
+    up = [0] * n
 
     def rec():
         if len(h) == length:
             yield tuple(h)
             return
         for a in acts:
-            w = a[0] == "w"
-            if w:
-                if a in used:
+            c, k = a[0], int(a[-1])
+            link = c == "w" or a[1] == "h"
+            if link:
+                if used[k]:
                     continue
-                used.add(a)
+                used[k] = True
+            elif c == "p":
+                if up[k] >= maxpause(ext):
+                    continue
+                up[k] += 1
+            elif c == "u":
+                if not up[k]:
+                    continue
+                up[k] -= 1
             h.append(a)
             yield from rec()
             h.pop()
-            if w:
-                used.discard(a)
+            if link:
+                used[k] = False
+            elif c == "p":
+                up[k] -= 1
+            elif c == "u":
+                up[k] += 1
 
     yield from rec()
 
@@ -444,7 +524,7 @@ def run_history(ctx, cfg, h, origin):
     fired = set()
     nontrivial = False
     for a in h:
-        if a[0] == "w":
+        if a[0] in "wpu" or a[1] == "h":
             continue
         if a[1] == "a":  # cancelN
             nontrivial = True
@@ -462,8 +542,9 @@ def plan(ctx):
     """[(configs, length)] enumerated unpruned, and the exploration depth."""
     scale = float(os.environ.get("VERIF_SCALE", "1"))
     if ctx.quick or scale < 1:  # smoke runs of the thorough tier use the quick plan
-        return [(CONFIGS2, 5), (CONFIGS2_LONG, 6), (CONFIGS3, 5), (CONFIGS3_RE, 4)], 12, True
-    return [(CONFIGS2, 6), (CONFIGS2_LONG, 7), (CONFIGS3, 6), (CONFIGS3_RE, 5), (CONFIGS3_RE_LONG, 6), (CONFIGS4[:2], 5)], 16, True
+        return [(CONFIGS2, 5), (CONFIGS2_LONG, 6), (CONFIGS3[:3], 5), (CONFIGS3_RE, 4), (CONFIGS2_EXT, 4), (CONFIGS3_EXT, 4)], 12, True
+    return [(CONFIGS2, 6), (CONFIGS2_LONG, 7), (CONFIGS3, 6), (CONFIGS3_RE, 5), (CONFIGS3_RE_LONG, 6), (CONFIGS4[:2], 5),
+            (CONFIGS2_EXT, 6), (CONFIGS3_EXT, 5)], 16, True
 
 
 def explore_configs(quick=False):
@@ -477,13 +558,15 @@ def explore_configs(quick=False):
         if c not in out:
             out.append(c)
     out += CONFIGS3_RE + (CONFIGS4[:1] + CONFIGS4[3:5] if quick else CONFIGS4)
+    out += (CONFIGS2_EXT[:2] + CONFIGS3_EXT[:1]) if quick else (CONFIGS2_EXT + CONFIGS3_EXT + [(EXT, "raises", "nothing"), (EXT, "eb", "cb")])
     return out
 
 
 def run(ctx):
     _tw()
     spaces, deep, complete = plan(ctx)
-    ctx.extra["enumerated"] = ["%d-level chain, %d configurations, length %d" % (len(c[0]), len(c), L) for c, L in spaces]
+    ctx.extra["enumerated"] = ["%d-level chain%s, %d configurations, length %d" % (
+        len(split(c[0])[1]), " + pause/unpause/chainDeferred" if c[0][0] in (EXT, LITE) else "", len(c), L) for c, L in spaces]
     ctx.extra["explored_length"] = deep
     n = 0
     k = 0
@@ -492,7 +575,8 @@ def run(ctx):
             ctx.seen("configs", "/".join(cfg))
             first = True
             cnt = 0
-            for h in histories(len(cfg), length):
+            ext, kinds = split(cfg)
+            for h in histories(len(kinds), length, ext):
                 k += 1
                 if k % ctx.nshards != ctx.shard:
                     continue
@@ -504,7 +588,9 @@ def run(ctx):
                 if first and cnt > 200 and len(ctx.samples) < 4:
                     first = False
                     ctx.sample({"config": cfg, "history": h, "last_events": w.log, "model": list(w.ms)})
-            ctx.count("histories_%dlevel" % len(cfg), cnt)
+            ctx.count("histories_%dlevel" % len(kinds), cnt)
+            if ext:
+                ctx.count("histories_pause_chaindeferred", cnt)
             if cfg in CONFIGS3_RE:
                 ctx.count("histories_reentrant_cancellers", cnt)
     ctx.count("enumerated_histories", n)
@@ -513,12 +599,15 @@ def run(ctx):
     # (the reachable state space saturates from any first action, so splitting one configuration's
     # exploration by prefix would repeat the work in every shard: whole configurations are dealt out,
     # heaviest - the four-level ones - first)
-    cfgs = sorted(explore_configs(ctx.quick or float(os.environ.get("VERIF_SCALE", "1")) < 1), key=lambda c: -len(c))
+    cfgs = sorted(explore_configs(ctx.quick or float(os.environ.get("VERIF_SCALE", "1")) < 1),
+                  key=lambda c: -(len(c) + (3 if c[0] in (EXT, LITE) else 0)))
     for ci, cfg in enumerate(cfgs):
         if ci % ctx.nshards != ctx.shard:
             continue
         ctx.seen("explored_configs", "/".join(cfg))
-        explore.dfs(ctx, lambda cfg=cfg: World(ctx, cfg), deep, shard_depth=0)
+        # the pause/chainDeferred alphabets have much larger state spaces: shallower bounds there
+        d = deep if cfg[0] not in (EXT, LITE) else {EXT: (8, 11), LITE: (7, 9)}[cfg[0]][0 if deep <= 12 else 1]
+        explore.dfs(ctx, lambda cfg=cfg: World(ctx, cfg), d, shard_depth=0)
         ctx.evaluated()
     gc.collect()
     _flush(ctx)
